@@ -239,16 +239,17 @@ class CFG:
         return [t for t, lab in self.nodes[i].succ if not (skip_exc and lab == "exc")]
 
     # -- must-facts (forward, intersection) ----------------------------------------------------------
-    def facts(self, blocked: Optional[Set[int]] = None) -> Dict[int, FrozenSet]:
+    def facts(self, blocked: Optional[Set[int]] = None, start: Optional[int] = None) -> Dict[int, FrozenSet]:
         """facts()[n] = set of atoms (and 'or'-facts) that hold whenever control reaches node n (before it executes).
         With `blocked`, only paths that avoid the blocked nodes are considered (nodes reachable only through them
         get the value None)."""
-        if blocked is None and self._facts is not None:
+        if blocked is None and start is None and self._facts is not None:
             return self._facts
         TOP = None
         IN: Dict[int, Optional[FrozenSet]] = {n.id: TOP for n in self.nodes}
-        IN[self.entry.id] = frozenset()
-        work = [self.entry.id]
+        first = self.entry.id if start is None else start   # with `start`: what holds on the paths that begin at that node (nothing is assumed there)
+        IN[first] = frozenset()
+        work = [first]
         kills = {n.id: _writes(n) for n in self.nodes}
         while work:
             i = work.pop()
@@ -264,7 +265,7 @@ class CFG:
                     out = _kill(cur, kills[i])
                 elif isinstance(lab, tuple) and lab[0] == "cond":
                     add = norm.atoms_true(lab[1])
-                    if lab[1] == ("false",) or any(norm.neg(a_) in out_base for a_ in add if a_[0] in ("cmp", "truth")):
+                    if lab[1] == ("false",) or any(_contradicted(out_base, a_) for a_ in add if a_[0] in ("cmp", "truth")):
                         continue  # the branch condition contradicts what is known: infeasible edge (dead-branch pruning)
                     out = out_base | frozenset(add)
                 old = IN[t]
@@ -272,7 +273,7 @@ class CFG:
                 if old is None or new != old:
                     IN[t] = new
                     work.append(t)
-        if blocked is not None:
+        if blocked is not None or start is not None:
             return IN  # type: ignore[return-value]
         self._facts = {k: (v if v is not None else frozenset()) for k, v in IN.items()}
         self._reach = {k for k, v in IN.items() if v is not None}
@@ -429,6 +430,37 @@ class CFG:
                     stack.append((t, path + [t]))
         return None
 
+    def escapes(self, start: ast.AST, through: Set[int], stops: Set[int]) -> Optional[int]:
+        """A stop node that a feasible path from `start` reaches without passing a node of `through` (None if there is none).  Feasibility is
+        decided on the facts of the paths that begin at `start` (branches whose condition contradicts them are not taken), so
+        `v = C(..); ...; if v is not None: use(v)` counts as always using v."""
+        s0 = self.node_of(start).id
+        IN = self.facts(blocked=set(through), start=s0)
+        for t in sorted(stops):
+            if t in through:
+                continue
+            if t == s0:
+                # coming round to the start again
+                if any(IN[p] is not None and p not in through and self._edge_feasible(IN[p], p, t) for p, _lab in self.nodes[t].pred):
+                    return t
+                continue
+            if IN[t] is not None:
+                return t
+        return None
+
+    def _edge_feasible(self, cur, i: int, t: int) -> bool:
+        n = self.nodes[i]
+        out_base = _kill(cur, _writes(n)) | _gen(n)
+        for t2, lab in n.succ:
+            if t2 != t or lab == "exc":
+                continue
+            if isinstance(lab, tuple) and lab[0] == "cond":
+                add = norm.atoms_true(lab[1])
+                if lab[1] == ("false",) or any(_contradicted(out_base, a_) for a_ in add if a_[0] in ("cmp", "truth")):
+                    continue
+            return True
+        return False
+
     def control_equivalent(self, a: ast.AST, b: ast.AST, loop: Optional[ast.AST] = None) -> bool:
         """a and b execute together: within one iteration of `loop` (or one call, if loop is None) every path through
         one of them passes the other.  Paths that raise are disregarded."""
@@ -485,6 +517,31 @@ def _pure_builtin_call(c: ast.Call) -> bool:
     return n in PURE_METHODS
 
 
+def _contradicted(known: FrozenSet, atom) -> bool:
+    """the atom cannot hold given the known facts: its negation is known — literally, or (for None tests) about a term known equal to its term"""
+    ng = norm.neg(atom)
+    if ng in known:
+        return True
+    if atom[0] == "cmp" and atom[1] in ("is", "isnot", "==", "!=") and "None" in (atom[2], atom[3]):
+        term = atom[2] if atom[3] == "None" else atom[3]
+        cls = {term}
+        grew = True
+        while grew:
+            grew = False
+            for k in known:
+                if k[0] == "cmp" and k[1] == "==" and (k[2] in cls) != (k[3] in cls):
+                    cls.update((k[2], k[3]))
+                    grew = True
+        isnone = atom[1] in ("is", "==")
+        for t in cls:
+            if t == "None":
+                continue
+            for op in (("isnot", "!=") if isnone else ("is", "==")):
+                if norm.mk_cmp(op, t, "None") in known or ("cmp", op, t, "None") in known:
+                    return True
+    return False
+
+
 def _gen(n: "Node") -> FrozenSet:
     """Facts established by executing the node itself (A6 transfer of assignments):
        x = <numeric literal>  ->  x == literal          x = <term>      ->  x == term
@@ -504,6 +561,8 @@ def _gen(n: "Node") -> FrozenSet:
             vt = norm.U(v)
             if t not in _names_of_text(vt)[0] and vt != t:
                 return frozenset([norm.mk_cmp("==", t, vt)])
+        if isinstance(v, ast.Call) and isinstance(v.func, ast.Name) and v.func.id[:1].isupper() and not v.func.id.isupper() and isinstance(a.targets[0], ast.Name):
+            return frozenset([("cmp", "isnot", t, "None")])   # x = ClassName(..): a constructed object
         if isinstance(v, ast.Call) and isinstance(v.func, ast.Name) and v.func.id == "next" and len(v.args) == 2 and not v.keywords \
                 and isinstance(a.targets[0], ast.Name) and isinstance(v.args[0], ast.GeneratorExp) and len(v.args[0].generators) == 1:
             # x = next((k for k, val in D.items() if COND(k, val)), default):   x is default   or   COND(x, D[x])
